@@ -12,9 +12,11 @@ import (
 	"fmt"
 	"io/ioutil"
 	"net/http"
+	"math/big"
 	"net/http/httptest"
 	"time"
 
+	"github.com/gauss-project/aurorafs/pkg/accounting"
 	accmock "github.com/gauss-project/aurorafs/pkg/accounting/mock"
 	"github.com/gauss-project/aurorafs/pkg/api"
 	"github.com/gauss-project/aurorafs/pkg/boson"
@@ -25,7 +27,9 @@ import (
 		"github.com/gauss-project/aurorafs/pkg/pinning"
 	resolvermock "github.com/gauss-project/aurorafs/pkg/resolver/mock"
 	"github.com/gauss-project/aurorafs/pkg/retrieval"
+	"github.com/gauss-project/aurorafs/pkg/routetab"
 	rmock "github.com/gauss-project/aurorafs/pkg/routetab/mock"
+	"github.com/gauss-project/aurorafs/pkg/settlement"
 	omock "github.com/gauss-project/aurorafs/pkg/settlement/chain/oracle/mock"
 	ldbstate "github.com/gauss-project/aurorafs/pkg/statestore/leveldb"
 	"github.com/gauss-project/aurorafs/pkg/storage"
@@ -55,6 +59,48 @@ type Node struct {
 	Port   *swb.Port
 	Logger logging.Logger
 	srv    api.Service
+	// Acc is the real accounting (only with Options.Settlement), before any wrapping.
+	Acc  *accounting.Accounting
+	opts Options
+}
+
+// Options select alternatives to the default wiring (all optional; the zero
+// value is the wiring of New).
+type Options struct {
+	// Settlement, when set, makes the node use the REAL accounting.Accounting
+	// (payment tolerance / threshold below) on top of this settlement layer
+	// instead of the repository's accounting mock.
+	Settlement settlement.Interface
+	Tolerance  *big.Int
+	Threshold  *big.Int
+	// WrapAccounting may wrap the accounting handed to retrieval (recording).
+	WrapAccounting func(accounting.Interface) accounting.Interface
+	// WrapStorer may wrap the storer handed to retrieval (recording); netstore,
+	// traversal and chunkinfo keep the bare local store.
+	WrapStorer func(storage.Storer) storage.Storer
+	// WrapChunkInfo may wrap the chunk-info service handed to retrieval.
+	WrapChunkInfo func(*chunkinfo.ChunkInfo) chunkinfo.Interface
+	// Route, when set, replaces the node's route-table mock.
+	Route routetab.RouteTab
+	// StoreDriver, when set, is passed to localstore as Options.Driver (e.g.
+	// `leveldb:{"WriteBuffer":65536}`: an in-memory store otherwise zeroes a large write buffer per open).
+	StoreDriver string
+}
+
+// NewWithOptions builds a node like New with the alternatives of o.
+func NewWithOptions(board *swb.Board, addr boson.Address, dir string, state storage.StateStorer, logger logging.Logger, o Options) (*Node, error) {
+	n := &Node{Addr: addr, Dir: dir, State: state, Logger: logger, Port: board.Port(addr), opts: o}
+	if n.State == nil {
+		st, err := ldbstate.NewInMemoryStateStore(logger)
+		if err != nil {
+			return nil, err
+		}
+		n.State = st
+	}
+	if err := n.start(); err != nil {
+		return nil, err
+	}
+	return n, nil
 }
 
 // New builds a node. state may be nil (fresh in-memory LevelDB state store).
@@ -75,27 +121,47 @@ func New(board *swb.Board, addr boson.Address, dir string, state storage.StateSt
 
 func (n *Node) start() error {
 	var err error
-	n.Store, err = localstore.New(n.Dir, n.Addr.Bytes(), &localstore.Options{Capacity: HugeCapacity}, n.Logger)
+	n.Store, err = localstore.New(n.Dir, n.Addr.Bytes(), &localstore.Options{Capacity: HugeCapacity, Driver: n.opts.StoreDriver}, n.Logger)
 	if err != nil {
 		return err
 	}
-	route := rmock.NewMockRouteTable()
+	mroute := rmock.NewMockRouteTable()
+	var route routetab.RouteTab = &mroute
+	if n.opts.Route != nil {
+		route = n.opts.Route
+	}
+	var acc accounting.Interface = accmock.NewAccounting()
+	if n.opts.Settlement != nil {
+		n.Acc = accounting.NewAccounting(n.opts.Tolerance, n.opts.Threshold, n.Logger, n.State, n.opts.Settlement)
+		acc = n.Acc
+	}
+	if n.opts.WrapAccounting != nil {
+		acc = n.opts.WrapAccounting(acc)
+	}
+	var rstore storage.Storer = n.Store
+	if n.opts.WrapStorer != nil {
+		rstore = n.opts.WrapStorer(n.Store)
+	}
 	subPub := subscribe.NewSubPub()
 	tracer, _, err := tracing.NewTracer(&tracing.Options{Enabled: false})
 	if err != nil {
 		return err
 	}
-	n.Retr = retrieval.New(n.Addr, n.Port, &route, n.Store, true, n.Logger, tracer, accmock.NewAccounting(), subPub)
+	n.Retr = retrieval.New(n.Addr, n.Port, route, rstore, true, n.Logger, tracer, acc, subPub)
 	n.NS = netstore.New(n.Store, n.Retr, n.Logger, n.Addr)
 	n.Trav = traversal.New(n.NS)
 	n.Pin = pinning.NewService(n.Store, n.State, n.Trav)
-	n.CI = chunkinfo.New(n.Addr, n.Port, n.Logger, n.Trav, n.State, n.NS, &route, omock.NewServer(), resolvermock.NewResolver(), subPub)
+	n.CI = chunkinfo.New(n.Addr, n.Port, n.Logger, n.Trav, n.State, n.NS, route, omock.NewServer(), resolvermock.NewResolver(), subPub)
 	if err := n.CI.InitChunkInfo(); err != nil {
 		return err
 	}
 	n.Store.SetChunkInfo(n.CI)
 	n.NS.SetChunkInfo(n.CI)
-	n.Retr.Config(n.CI)
+	if n.opts.WrapChunkInfo != nil {
+		n.Retr.Config(n.opts.WrapChunkInfo(n.CI))
+	} else {
+		n.Retr.Config(n.CI)
+	}
 	n.srv = api.New(n.NS, resolvermock.NewResolver(), n.Addr, n.CI, n.Trav, n.Pin, nil, n.Logger, tracer, nil, nil,
 		omock.NewServer(), nil, nil, api.Options{BufferSizeMul: 8})
 	n.API = n.srv
